@@ -4,7 +4,7 @@ import os, subprocess, shutil, concurrent.futures as cf
 ROOT = os.path.dirname(os.path.dirname(os.path.abspath(__file__)))
 LEAN = os.path.join(ROOT, "lean")
 HARN = os.path.join(ROOT, "harness")
-REPO = "/repo"
+REPO = os.environ.get("VERIF_REPO", "/repo")   # background sweeps on a snapshot set VERIF_REPO (and rewrite harness/go.mod)
 DRIVER = os.path.join(LEAN, ".lake", "build", "bin", "driver")
 NPROC = os.cpu_count() or 4
 GOENV = dict(os.environ, GOFLAGS="-mod=mod", GOPROXY="off", GOSUMDB="off", GOTOOLCHAIN="local")
